@@ -94,6 +94,129 @@ def explore(ctx):
             ctx.violation('SeasoningError escaped instead of RecognitionError',
                           dict(L.describe(c), key='seasoningerror'))
     LC.correspond(ctx, cases)
+    explore_sweeten(ctx)
+
+
+def sweeten_chain(model, dumper_cls, name):
+    """the documented rule on the dump side: classes with a representer, bases first, own body only"""
+    cls = model.classes[name]
+    out = []
+    for b in cls.__bases__:
+        if b in dumper_cls.yaml_representers and b.__name__ in model.classes and model.classes[b.__name__] is b:
+            out += sweeten_chain(model, dumper_cls, b.__name__)
+    if '_yatiml_sweeten' in cls.__dict__:
+        out.append(name)
+    return out
+
+
+def expected_sweeten(model, dumper_cls, v):
+    """post-order: an object's attributes are represented before its own mapping is sweetened"""
+    out = []
+
+    def rec(x):
+        n = type(x).__name__
+        if n in model.classes and type(x) is model.classes[n]:
+            spec = model.by_name_spec[n]
+            if spec['kind'] == 'plain':
+                for a in model.defaults_of(n).keys():
+                    if a == '_yatiml_extra':
+                        for k, e in getattr(x, a).items():
+                            rec(e)
+                    elif hasattr(x, a):
+                        rec(getattr(x, a))
+            out.extend(sweeten_chain(model, dumper_cls, n))
+        elif isinstance(x, dict):
+            for k, a in x.items():
+                rec(k)
+                rec(a)
+        elif isinstance(x, (list, tuple)):
+            for a in x:
+                rec(a)
+    rec(v)
+    return out
+
+
+def explore_sweeten(ctx):
+    import classmodel as CM
+    import dumprun as D
+    import loadgen as G
+    yaml, yatiml = L.setup()
+    rng = ctx.rng
+    made = 0
+    attempts = 0
+    target = ctx.budget(300, 6000)
+    while made < target and attempts < target * 5:
+        attempts += 1
+        spec, cands = G.gen_model(rng, features={'sweeten'})
+        if not any(c.get('sweeten') is not None for c in spec):
+            continue
+        try:
+            model = CM.Model(spec)
+            rd = D.RealDump(model, yatiml, yaml)
+            v = D.gen_value(rng, model, rng.choice(cands))
+            node, swe = rd.node(v)
+        except (D.GenFail, G.GenFail):
+            continue
+        except Exception as e:  # noqa
+            ctx.count('sweeten_gen_error:' + type(e).__name__)
+            continue
+        made += 1
+        ctx.case(('sweeten', repr(v)[:200]), nontrivial=bool(swe))
+        ctx.count('sweeten_cases')
+        for e in swe:
+            if e[1] != e[2]:
+                kind = model.by_name_spec.get(e[2], {}).get('kind')
+                key = 'sweeten-foreign-hook' if kind == 'plain' else 'sweeten-hasattr-' + str(kind)
+                ctx.violation('_yatiml_sweeten of class {} was invoked for class {}'.format(e[1], e[2]),
+                              dict(key=key, classes=model.source[-2500:], value=repr(v)[:300]))
+        want = expected_sweeten(model, rd.dumper_cls, v)
+        got = [e[1] for e in swe]
+        if got != want:
+            ctx.violation('sweeten calls {} but the value calls for {} (bases first, own body only)'.format(got, want),
+                          dict(key='sweeten-trace:' + repr(v)[:50], classes=model.source[-2500:], value=repr(v)[:300]))
+    fixed_sweeten_findings(ctx, yaml, yatiml)
+
+
+def fixed_sweeten_findings(ctx, yaml, yatiml):
+    """the two situations of DESIGN.md F14 (enum / string-like representers look the hook up with
+    hasattr): exercised on every run so that the finding is reported while it exists"""
+    import enum
+    from collections import UserString
+    log = []
+
+    class US(UserString):
+        @classmethod
+        def _yatiml_sweeten(cls, node):
+            log.append(('US', cls.__name__))
+
+    class US2(US):
+        @classmethod
+        def _yatiml_sweeten(cls, node):
+            log.append(('US2', cls.__name__))
+
+    dumps = yatiml.dumps_function(US, US2)
+    dumps(US2('x'))
+    ctx.case(('sweeten-fixed', 'stringlike'), nontrivial=True)
+    if [a for a, _ in log] != ['US', 'US2']:
+        ctx.violation('string-like US2(US), both defining _yatiml_sweeten: hooks run {} instead of '
+                      "['US', 'US2'] (bases first)".format([a for a, _ in log]),
+                      dict(key='sweeten-stringlike-chain', log=repr(log)))
+    del log[:]
+
+    class Mixin:
+        @classmethod
+        def _yatiml_sweeten(cls, node):
+            log.append(('Mixin', cls.__name__))
+
+    class Col(Mixin, enum.Enum):
+        red = 1
+
+    dumps = yatiml.dumps_function(Col)
+    dumps(Col.red)
+    ctx.case(('sweeten-fixed', 'enum'), nontrivial=True)
+    if log:
+        ctx.violation('enum Col(Mixin, Enum) defines no _yatiml_sweeten but the unregistered mix-in\'s hook '
+                      'ran: {}'.format(log), dict(key='sweeten-enum-inherited', log=repr(log)))
 
 
 def search(ctx, broken):
